@@ -26,7 +26,7 @@ pub fn digests(seed: u64, extra: usize) -> Vec<(String, [u8; 32])> {
 }
 pub fn run(ctx: &Ctx) {
     let curve = Curve::new(); let n = secp::n();
-    let (ks, ds) = if ctx.quick() { (keys(ctx.seed, 2), digests(ctx.seed, 24)) } else { (keys(ctx.seed, 6), digests(ctx.seed, 64)) };
+    let (ks, ds) = if ctx.quick() { (keys(ctx.seed, 2), digests(ctx.seed, 24)) } else { (keys(ctx.seed, 34), digests(ctx.seed, 384)) };
     let (par0, par1, flips, ge_n_differs) = (AtomicU64::new(0), AtomicU64::new(0), AtomicU64::new(0), AtomicU64::new(0));
     ctx.sweep("key-x-digest", "full product of boundary/filler keys x boundary/filler digests", (ks.len() * ds.len()) as u64, |i| {
         let (kc, d) = &ks[i as usize / ds.len()]; let (dc, z) = &ds[i as usize % ds.len()];
